@@ -152,7 +152,7 @@ def ensure_facts(repo=None, all_targets=False, verbose=False):
         t0 = time.time()
         tdir = os.path.join(CACHE, "target")
         if os.path.realpath(repo) != "/repo":
-            tdir = os.path.join(CACHE, "target-scratch")
+            tdir = os.environ.get("CTE_TARGET_DIR") or os.path.join(CACHE, "target-scratch")
         _run_extraction(repo, tmp, tdir, MEMBERS, all_targets=all_targets)
         have = set()
         for f in os.listdir(tmp):
